@@ -685,6 +685,39 @@ func (c *Ctx) errFate(fn *ssa.Function, errV ssa.Value, allowExcuse bool, misrep
 		if eng.IsNilConst(x) {
 			x, y = y, x
 		}
+		// the same with the variable in a cell (a named result): the load tested here reads what
+		// the failure edge's block left in the cell, when nothing in this block stores before it
+		if ld, isLd := x.(*ssa.UnOp); isLd && ld.Op == token.MUL && eng.IsNilConst(y) && ld.Block() == b {
+			if cell, isCell := ld.X.(*ssa.Alloc); isCell {
+				storedHere := false
+				for _, in := range b.Instrs {
+					if in == ssa.Instruction(ld) {
+						break
+					}
+					if st, isSt := in.(*ssa.Store); isSt && st.Addr == ssa.Value(cell) {
+						storedHere = true
+					}
+				}
+				if !storedHere {
+					var held ssa.Value
+					for pb, hops := pred, 0; pb != nil && hops < 6 && held == nil; hops++ {
+						for i := len(pb.Instrs) - 1; i >= 0; i-- {
+							if st, isSt := pb.Instrs[i].(*ssa.Store); isSt && st.Addr == ssa.Value(cell) {
+								held = st.Val
+								break
+							}
+						}
+						if held != nil || len(pb.Preds) != 1 {
+							break
+						}
+						pb = pb.Preds[0]
+					}
+					if held != nil && (isErr(held) || isErr(eng.ResolveLocalLoad(held))) {
+						return rel.Op == token.NEQ
+					}
+				}
+			}
+		}
 		ph, isPhi := x.(*ssa.Phi)
 		if !eng.IsNilConst(y) || !isPhi || ph.Block() != b {
 			return true
@@ -796,6 +829,87 @@ func (c *Ctx) errFate(fn *ssa.Function, errV ssa.Value, allowExcuse bool, misrep
 		if isErr(e) || isErr(eng.ResolveLocalLoad(e)) {
 			return false // hands back the very error whose failure edge this is
 		}
+		// …or hands it to a function or function literal that returns what it was given
+		// (return abandon(err), with abandon := func(cause error) (string, error) { …; return "", cause })
+		if hc, ri := eng.CallAndIndex(e); hc != nil && !hc.Call.IsInvoke() {
+			g := eng.StaticCallee(hc.Common())
+			if g == nil {
+				if fv, _, ok := eng.FuncValueOf(eng.ResolveLocalLoad(hc.Call.Value)); ok {
+					g = fv
+				}
+			}
+			if g != nil && len(g.Blocks) > 0 && len(hc.Call.Args) == len(g.Params) {
+				passes := true
+				n := 0
+				eng.EachInstr(g, func(gi ssa.Instruction) {
+					gr, isRet := gi.(*ssa.Return)
+					if !isRet || gi.Parent() != g {
+						return
+					}
+					n++
+					gres := eng.ReturnResults(gr)
+					if ri >= len(gres) {
+						passes = false
+						return
+					}
+					gv := eng.StripConv(gres[ri])
+					if definitelyNonNilErr(gv) {
+						return
+					}
+					prm, isP := gv.(*ssa.Parameter)
+					if !isP {
+						passes = false
+						return
+					}
+					pi := eng.ParamIndex(prm)
+					if pi < 0 || pi >= len(hc.Call.Args) || !(isErr(hc.Call.Args[pi]) || isErr(eng.ResolveLocalLoad(hc.Call.Args[pi]))) {
+						passes = false
+					}
+				})
+				if passes && n > 0 {
+					return false
+				}
+			}
+		}
+		// a local (named result) that nothing but this function writes, tested non-nil on an
+		// edge that dominates the return, and not written again under that edge
+		if ld, isLd := e.(*ssa.UnOp); isLd && ld.Op == token.MUL {
+			if cell, isCell := ld.X.(*ssa.Alloc); isCell && !eng.CellEscapes(cell) {
+				for _, b := range fn.Blocks {
+					for k := 0; k < len(b.Succs) && len(b.Succs) == 2; k++ {
+						rel, ok := eng.EdgeRel(b, k)
+						if !ok || rel.Op != token.NEQ || !eng.EdgeDominates(b, k, ret.Block()) {
+							continue
+						}
+						x, y := rel.X, rel.Y
+						if eng.IsNilConst(x) {
+							x, y = y, x
+						}
+						tl, isTl := x.(*ssa.UnOp)
+						if !eng.IsNilConst(y) || !isTl || tl.X != ssa.Value(cell) {
+							continue
+						}
+						rewritten := false
+						for _, blk := range fn.Blocks {
+							if !eng.EdgeDominates(b, k, blk) {
+								continue
+							}
+							for _, in2 := range blk.Instrs {
+								if st, isSt := in2.(*ssa.Store); isSt && st.Addr == ssa.Value(cell) {
+									if sl, isL := st.Val.(*ssa.UnOp); isL && sl.X == ssa.Value(cell) {
+										continue // *c = *c emitted for `return namedResult`
+									}
+									rewritten = true
+								}
+							}
+						}
+						if !rewritten {
+							return false
+						}
+					}
+				}
+			}
+		}
 		return !(definitelyNonNilErr(e) || eng.KnownNonNil(e, ret.Block()))
 	}
 	for _, st := range starts {
@@ -900,6 +1014,16 @@ func (c *Ctx) c10NoMemory(pm *pairModel, storeT, mboxT *types.Named, readIndex *
 		if _, isMap := f.Type().Underlying().(*types.Map); isMap {
 			bad = append(bad, f.Name()+" (map)")
 		}
+		// containers that hold arbitrary values: a sync.Map (but not a sync.Pool of scratch
+		// buffers, which C09/POOL judges), an interface value, a slice of interfaces
+		if n, isN := f.Type().(*types.Named); isN && n.Obj().Pkg() != nil && n.Obj().Pkg().Path() == "sync" && n.Obj().Name() == "Map" {
+			bad = append(bad, f.Name()+" (sync.Map)")
+		}
+		if pt, isP := f.Type().(*types.Pointer); isP {
+			if n, isN := pt.Elem().(*types.Named); isN && n.Obj().Pkg() != nil && n.Obj().Pkg().Path() == "sync" && n.Obj().Name() == "Map" {
+				bad = append(bad, f.Name()+" (*sync.Map)")
+			}
+		}
 	}
 	if len(bad) > 0 {
 		r.Bad("C10/NO-MEMORY-STATE", "file.Store-fields", p.Pos(storeT.Obj().Pos()), "file.Store holds mailbox state in memory (%s): operations can succeed from the cache while the disk disagrees", strings.Join(bad, ", "))
@@ -934,6 +1058,40 @@ func (c *Ctx) c10NoMemory(pm *pairModel, storeT, mboxT *types.Named, readIndex *
 				}
 			}
 			r.Check(!preset, "C10/NO-MEMORY-STATE", "ctor@"+shortFn(fn), p.InstrPos(in), "mbox is constructed with the index not loaded", "an mbox is constructed with indexLoaded/messages preset: its contents do not come from disk")
+			// a mailbox object lives for one operation: the fresh object is handed back to the
+			// caller and to nobody else (kept in the store, it would carry one operation's loaded
+			// index — and its lazily loading readers — into the next)
+			kept := ""
+			for _, ref := range *al.Referrers() {
+				switch y := ref.(type) {
+				case *ssa.Store:
+					if y.Val == ssa.Value(al) {
+						if _, local := y.Addr.(*ssa.Alloc); !local {
+							kept = "stored at " + p.InstrPos(y)
+						}
+					}
+				case *ssa.MakeInterface:
+					if y.Referrers() != nil {
+						for _, r2 := range *y.Referrers() {
+							if cc := eng.CallOf(r2); cc != nil {
+								kept = "handed to " + eng.CalleeName(cc) + " at " + p.InstrPos(r2)
+							}
+							if st2, isSt := r2.(*ssa.Store); isSt {
+								if _, local := st2.Addr.(*ssa.Alloc); !local {
+									kept = "stored at " + p.InstrPos(st2)
+								}
+							}
+						}
+					}
+				case *ssa.Call:
+					for _, a := range y.Call.Args {
+						if a == ssa.Value(al) && eng.StaticCallee(y.Common()) == nil {
+							kept = "handed to " + eng.CalleeName(y.Common()) + " at " + p.InstrPos(y)
+						}
+					}
+				}
+			}
+			r.Check(kept == "", "C10/NO-MEMORY-STATE", "ctor-fresh@"+shortFn(fn), p.InstrPos(in), "the constructed mbox is only handed back to the caller", "the constructed mbox is "+kept+": a mailbox object kept across operations serves later calls from memory (and lets readers that hold only the read lock load its index at the same time)")
 		})
 	}
 	r.Floor("C10/NO-MEMORY-STATE", "mbox constructors", nCtor, 1)
@@ -1474,8 +1632,63 @@ func (c *Ctx) storeErrorsPropagate(rule string, fns []*ssa.Function, consequence
 		// logs a failed removal and goes on with the delivery — the cap is best effort there, the
 		// next delivery tries again, and the delivery itself still fails if the index cannot be
 		// written
-		if g := eng.StaticCallee(call.Common()); g != nil && g.Name() == "removeMessage" && call.Parent().Name() == "newMessage" && eng.FuncPkgPath(call.Parent()) == eng.Mod+"/"+fileRel {
-			return "", false
+		// (recognised by role, not by name: a call inside a loop of the file store whose
+		// condition compares len(mbox.messages) with a bound — the eviction loop)
+		if eng.FuncPkgPath(call.Parent()) == eng.Mod+"/"+fileRel {
+			if fMsgs := c.P.OptField(fileRel, "mbox", "messages"); fMsgs != nil {
+				var conds []*ssa.BasicBlock
+				for _, h := range loopHeaders(call.Block()) {
+					// the header and the rest of an && / || loop condition: the blocks between the
+					// header and the body
+					for _, bb := range call.Parent().Blocks {
+						if (bb == h || h.Dominates(bb)) && (bb == call.Block() || bb.Dominates(call.Block())) {
+							conds = append(conds, bb)
+						}
+					}
+				}
+				for _, h := range conds {
+					iff := eng.IfOf(h)
+					if iff == nil {
+						continue
+					}
+					if rel, ok := eng.CondRel(iff.Cond); ok {
+						for _, side := range []ssa.Value{rel.X, rel.Y} {
+							if lx := eng.LenOf(eng.StripConv(side)); lx != nil && eng.SameField(eng.LoadedField(lx), fMsgs) {
+								return "", false
+							}
+						}
+					}
+					// the bound asked of a helper (for mb.atMessageCap() { … })
+					if hc, isCall := iff.Cond.(*ssa.Call); isCall {
+						if rets, hg := eng.ReturnedValues(hc, 0); hg != nil {
+							// a helper that answers `limit > 0 && len(…) >= limit` returns a φ of its conjuncts
+							var flat []ssa.Value
+							var open func(v ssa.Value, d int)
+							open = func(v ssa.Value, d int) {
+								if ph, isPhi := v.(*ssa.Phi); isPhi && d < 4 {
+									for _, e := range ph.Edges {
+										open(e, d+1)
+									}
+									return
+								}
+								flat = append(flat, v)
+							}
+							for _, rv := range rets {
+								open(rv, 0)
+							}
+							for _, rv := range flat {
+								if rel, ok := eng.CondRel(rv); ok {
+									for _, side := range []ssa.Value{rel.X, rel.Y} {
+										if lx := eng.LenOf(eng.StripConv(side)); lx != nil && eng.SameField(eng.LoadedField(lx), fMsgs) {
+											return "", false
+										}
+									}
+								}
+							}
+						}
+					}
+				}
+			}
 		}
 		// an existence probe answers a question; a negative answer is not a failure
 		if name == "os.Stat" || name == "os.Lstat" {
